@@ -189,6 +189,96 @@ def file_level_tie(chk: core.Check, rng, cases, thorough) -> int:
     return len(todo) + len(groups)
 
 
+def ordered_under_delays(chk: core.Check, rng):
+    """many single-block batches, the FIRST decoding tasks are the slowest: records must still come back in file order"""
+    import time
+    import threading
+    import pybes3
+    blocks = [[rf.gen_event(rng, i)] for i in range(36)]
+    data = rf.enc_file(blocks)
+    path = rc.write_tmp(data)
+    want = [e.header[1] for b in blocks for e in b]
+    try:
+        for workers, delays in ((2, {0: 0.3}), (4, {0: 0.25, 1: 0.1}), (None, {0: 0.2, 2: 0.1})):
+            lock = threading.Lock()
+            n_calls = [0]
+
+            def wrapper(fn, delays=delays, lock=lock, n_calls=n_calls):
+                def wrapped(d, sub_detectors=None):
+                    with lock:
+                        k = n_calls[0]; n_calls[0] += 1
+                    if k in delays:
+                        time.sleep(delays[k])
+                    return fn(d, sub_detectors)
+                return wrapped
+            with rc.NativeBackedReader(wrapper=wrapper):
+                with pybes3.open_raw(path) as r:
+                    arr = r.arrays(n_block_per_batch=1, max_workers=workers, decode_reid=False)
+            got = [int(x) for x in arr["evt_header"]["evt_no"]]
+            chk.count(1, key=f"delayed-{workers}")
+            chk.hist("file_tie_mutation", "delayed-first-task")
+            if got != want:
+                chk.failing_input("pybes3.open_raw(path).arrays(n_block_per_batch=1) with the first decoding tasks finishing last", {"blocks": len(blocks), "max_workers": workers, "task_delays_s": {str(k): v for k, v in delays.items()}},
+                                  {"event_numbers": got}, {"event_numbers": want}, "one record per event in file order")
+                return
+    finally:
+        os.unlink(path)
+
+
+def long_streams(chk: core.Check, rng, thorough: bool):
+    """streams long enough for any per-parser counter narrower than 32 bits to wrap: > 2^16 readout fragments in one buffer with the
+    same channel hit again exactly 2^16 fragments later, a fragment with > 2^16 words, (thorough) > 2^16 events.
+    Oracle: the intended decode (rawfile.expected); parser: native build of the working tree."""
+    def ev(i, dets):
+        return rf.Event(header=[i & rf.M32, i, 1234, 0, 0, 0, 1, 2, 3, 4], subdets=dets)
+
+    def mdc_word(ch, tq, val):
+        return ((ch & 0x3FFF) << 18) | (tq << 17) | (val & 0xFFFF)
+
+    def tof_word(ch, tq, val):
+        return ((ch & 0x3FF) << 21) | (tq << 20) | (val & 0x7FFF)
+    streams = []
+    # (a) 4 MDC ROBs per event, channel (i mod 16384) through ROB (i mod 4), status-only ROBs otherwise: consecutive hits of a
+    #     channel are exactly 65536 fragments apart; a few TOF fragments in between shift nothing (own events)
+    n = 16384 + 40
+    evs = []
+    for i in range(n):
+        ch = i % 16384
+        robs = [rf.Rob(data=([mdc_word(ch, 0, i + 1), mdc_word(ch, 1, 2 * i + 1)] if k == i % 4 else []), status=[0xABCD0000 + k], status_first=bool(k % 2)) for k in range(4)]
+        evs.append(ev(i, [rf.SubDet(0xA1, [rf.Ros(robs)])]))
+    streams.append(("65536+ MDC fragments, same channel again after exactly 65536 fragments", evs, ["mdc"]))
+    # (b) one fragment with more than 2^16 words (EMC one row per word; MDC merge over all 2^14 channels several times)
+    big_emc = [((rng.getrandbits(13)) << 19) | rng.getrandbits(19) for _ in range(66000)]
+    big_mdc = [mdc_word(j % 16384, (j // 16384) % 2, j) for j in range(70000)]
+    big_tof = [tof_word(j % 1024, (j // 1024) % 2, j) for j in range(3000)]
+    streams.append(("fragments with more than 65536 words", [ev(0, [rf.SubDet(0xA3, [rf.Ros([rf.Rob(big_emc)])]), rf.SubDet(0xA1, [rf.Ros([rf.Rob(big_mdc)])]), rf.SubDet(0xA2, [rf.Ros([rf.Rob(big_tof)])])]),
+                                                             ev(1, [rf.SubDet(0xA3, [rf.Ros([rf.Rob(big_emc[:5])])])])], ["mdc", "tof", "emc"]))
+    if thorough:
+        evs = [ev(i, [rf.SubDet(0xA4, [rf.Ros([rf.Rob([(i % 2048) << 16 | (i & 0xFFFF)])])])] if i % 3 == 0 else []) for i in range(70000)]
+        streams.append(("more than 65536 events", evs, ["muc", "mdc"]))
+    for what, evs, sel in streams:
+        words = []
+        for i, e in enumerate(evs):
+            words += rf.enc_block([e], i)
+        r = native.run_raw_buffers([(words, native.sel_mask(sel))], timeout=900)[0]
+        exp = rc.expected_to_columns(rf.expected(evs, sel), sel)
+        chk.count(1, key=f"long-{what}")
+        chk.hist("long_streams", what)
+        ok = r["class"] == "ok" and rc.same_columns(rc.canon_native(r["result"]), exp)
+        if not ok:
+            detail = r["class"] + " " + r["detail"]
+            if r["class"] == "ok":
+                got = rc.canon_native(r["result"])
+                bad = [k for k in exp if k != "evt_header" and ({x: list(map(int, y)) for x, y in got.get(k, {}).items()} != {x: list(map(int, y)) for x, y in exp[k].items()})]
+                k0 = bad[0] if bad else "evt_header"
+                go, eo = got.get(k0, {}).get("offsets", []), exp[k0].get("offsets", [])
+                first_ev = next((j for j in range(min(len(go), len(eo)) - 1) if go[j + 1] - go[j] != eo[j + 1] - eo[j]), None)
+                detail = f"columns {bad} differ; rows decoded {go[-1] if go else None} vs encoded {eo[-1] if eo else None}; first event with a different number of digis: {first_ev}"
+            chk.failing_input("C++ raw parser (native build of the working tree) on a long well-formed stream", {"stream": what, "events": len(evs), "words": len(words), "sub_detectors": sel},
+                              detail, "the intended decode of the encoded events", "per-sub-detector digi lists are exactly those encoded, for every number of events and fragments")
+            return
+
+
 def main(chk: core.Check) -> int:
     thorough = chk.tier == "thorough"
     rng = random.Random(f"C03-{chk.seed}")
@@ -289,6 +379,10 @@ def main(chk: core.Check) -> int:
         finally:
             os.unlink(path)
     n_file_tie = file_level_tie(chk, rng, cases, thorough) if ok_gen else 0
+    if not chk.failing:
+        ordered_under_delays(chk, rng)
+    if not chk.failing:
+        long_streams(chk, rng, thorough)
     chk.coverage["traces_validated_against_impl"] = len(cases) + len(py_cases) + n_file_tie
     chk.coverage["installed_extension_also_run"] = cpp_unchanged
     chk.sample({"n_events": sum(len(b) for b in cases[6][0]), "sub_detectors": cases[6][1], "first_words": [hex(x) for x in bufs[6][0][:24]]})
